@@ -115,6 +115,17 @@ func (m *c04mon) After(g *gw.GW, ev string, sn []gw.SNOut, mq []gw.MQOut, setup 
 			m.refused++
 		}
 	}
+	// "never later denotes a different topic name": what the gateway itself takes an id to denote (its table of
+	// registered topics) must stay what was handed out, and hold no id that was never handed out
+	for id, name := range g.H.VRegistered() {
+		old, ok := m.assigned[id]
+		switch {
+		case ok && old != name:
+			vs = append(vs, explore.Violation{Sig: "id-denotes-another-name-in-the-gateway", Detail: fmt.Sprintf("topic id %d was handed out for %q, the gateway now takes it to denote %q (event %s)", id, old, name, gw.Label(ev))})
+		case !ok && (id < m.lo || id > m.hi):
+			vs = append(vs, explore.Violation{Sig: "gateway-registers-id-out-of-range", Detail: fmt.Sprintf("the gateway's table holds topic id %d (%q) outside %d..%d, never handed out (event %s)", id, name, m.lo, m.hi, gw.Label(ev))})
+		}
+	}
 	m.ended = g.Returned
 	return vs
 }
